@@ -1,5 +1,10 @@
 package main
 
+import (
+	"fmt"
+	"strings"
+)
+
 // Plan describes one property's check.
 type Plan struct {
 	Level            string
@@ -25,6 +30,84 @@ func simpleRuns(name string, qb, tb int) func(string) []*Run {
 	return func(string) []*Run {
 		return []*Run{{Name: name, Flavor: "plain", NBatch: n(qb, tb), TimeoutS: n(600, 3000)}}
 	}
+}
+
+// crossDiff compares the per-case digests of run `base` with those of every
+// run in `others` (same seed, same batches => same cases). A mismatch flagged
+// by either side with an open known finding of this property is counted as
+// that finding; anything else is a violation replayable in both processes.
+func crossDiff(base string, others ...string) func(v *Verdict, runs []*Run, results map[string][]*BatchResult) {
+	return func(v *Verdict, runs []*Run, results map[string][]*BatchResult) {
+		open := map[string]bool{}
+		for _, f := range findings.Findings {
+			if f.Status == "open" && f.appliesTo(prop) {
+				open[f.ID] = true
+			}
+		}
+		compared, differed := int64(0), int64(0)
+		cfgSeen := map[string]string{}
+		for name, brs := range results {
+			for _, br := range brs {
+				if br != nil && br.Config != nil {
+					cfgSeen[name] = br.Config["native"] + "/optdec=" + br.Config["optdec"] + "/fastmap=" + br.Config["fastmap"] + "/vm=" + br.Config["vm"]
+				}
+			}
+		}
+		for _, o := range others {
+			if cfgSeen[o] == cfgSeen[base] {
+				v.Inconcl = append(v.Inconcl, fmt.Sprintf("runs %s and %s observed the same configuration %q: nothing was compared", base, o, cfgSeen[base]))
+				continue
+			}
+			for b, bb := range results[base] {
+				if b >= len(results[o]) || bb == nil || results[o][b] == nil {
+					continue
+				}
+				ob := results[o][b]
+				for i, d := range bb.Digests {
+					od, ok := ob.Digests[i]
+					if !ok {
+						continue // the other process died before this case (reported as a crash)
+					}
+					compared++
+					df, of := strings.SplitN(d, " ", 2), strings.SplitN(od, " ", 2)
+					if df[0] == of[0] {
+						continue
+					}
+					differed++
+					known := ""
+					for _, fl := range append(flagList(df), flagList(of)...) {
+						if open[fl] {
+							known = fl
+						}
+					}
+					if known != "" {
+						v.KnownSeen[known]++
+						continue
+					}
+					v.Violations = append(v.Violations, Violation{Run: base, Also: o, Batch: b, Case: i, API: "cross-process",
+						Msg:    fmt.Sprintf("result differs between %s (%s) and %s (%s)", base, cfgSeen[base], o, cfgSeen[o]),
+						Detail: map[string]string{base: d, o: od}})
+					v.VCount++
+				}
+			}
+		}
+		if v.Extra == nil {
+			v.Extra = map[string]interface{}{}
+		}
+		v.Extra["cross_process_cases_compared"] = compared
+		v.Extra["cross_process_digests_differing"] = differed
+		v.Extra["configurations_observed"] = cfgSeen
+		if compared == 0 {
+			v.Inconcl = append(v.Inconcl, "no digests were compared")
+		}
+	}
+}
+
+func flagList(parts []string) []string {
+	if len(parts) < 2 || parts[1] == "" {
+		return nil
+	}
+	return strings.Split(parts[1], ",")
 }
 
 var stdAssumptions = []string{
@@ -72,8 +155,8 @@ func init() {
 		},
 	}
 	plans["C03"] = &Plan{
-		Level: "exploration",
-		Rule: "case = (type, value, how it is passed: value / pointer / element of []interface{} / value of map[string]interface{}). Types as in C01 (random reflect-built + catalogue incl. Marshaler/TextMarshaler on value and pointer receivers, erroring and invalid-output marshalers, pointer-keyed maps); values: boundary numbers, NaN/Inf, invalid UTF-8, HTML characters, invalid json.Number text, nil vs empty containers, maps with 11/12/13/40/41/60 keys and long common prefixes, typed values inside interface{}. Oracle: encoding/json.Marshal of the same argument; outputs compared as token streams (punctuation, order, number literals byte-exact, strings by denoted value). distinct = hash(type descriptor, passing mode, canonical value dump); non-trivial = output has >= 2 bytes or an error",
+		Level:       "exploration",
+		Rule:        "case = (type, value, how it is passed: value / pointer / element of []interface{} / value of map[string]interface{}). Types as in C01 (random reflect-built + catalogue incl. Marshaler/TextMarshaler on value and pointer receivers, erroring and invalid-output marshalers, pointer-keyed maps); values: boundary numbers, NaN/Inf, invalid UTF-8, HTML characters, invalid json.Number text, nil vs empty containers, maps with 11/12/13/40/41/60 keys and long common prefixes, typed values inside interface{}. Oracle: encoding/json.Marshal of the same argument; outputs compared as token streams (punctuation, order, number literals byte-exact, strings by denoted value). distinct = hash(type descriptor, passing mode, canonical value dump); non-trivial = output has >= 2 bytes or an error",
 		Assumptions: stdAssumptions, MinEvals: 20000, MinEvalsThorough: 1000000,
 		Runs: func(string) []*Run {
 			return []*Run{
@@ -82,6 +165,49 @@ func init() {
 				{Name: "vm", Flavor: "plain", NBatch: n(2, 8), Env: []string{"SONIC_ENCODER_USE_VM=1"}, TimeoutS: n(900, 3000)},
 			}
 		},
+	}
+	plans["C11"] = &Plan{
+		Level:       "exploration",
+		Rule:        "the C01 case list (same seed => same (type, configuration, pre-populated destination, document) cases) is decoded in three processes: jitdec, SONIC_USE_OPTDEC=1, SONIC_USE_OPTDEC=1+SONIC_USE_FASTMAP=1; each case yields a digest (error-or-not + canonical deep dump of the destination) and the digests are compared across processes; every process also reports acceptance of a structurally malformed document. distinct = hash(type descriptor, config, document); non-trivial = document length >= 2. The verif bridge reports the implementation each process really ran; identical configurations make the run inconclusive",
+		Assumptions: []string{"both implementations are run on identical inputs in separate processes; equality of digests (FNV-1a 64 of a canonical dump) is taken as equality of values", "only executions actually produced are decided"},
+		MinEvals:    20000, MinEvalsThorough: 1000000,
+		Runs: func(string) []*Run {
+			nb := n(8, 32)
+			return []*Run{
+				{Name: "jit", Flavor: "plain", NBatch: nb, TimeoutS: n(900, 3000)},
+				{Name: "optdec", Flavor: "plain", NBatch: nb, Env: []string{"SONIC_USE_OPTDEC=1"}, TimeoutS: n(900, 3000)},
+				{Name: "optdec-fastmap", Flavor: "plain", NBatch: nb, Env: []string{"SONIC_USE_OPTDEC=1", "SONIC_USE_FASTMAP=1"}, TimeoutS: n(900, 3000)},
+			}
+		},
+		Post: crossDiff("jit", "optdec", "optdec-fastmap"),
+	}
+	plans["C12"] = &Plan{
+		Level:       "exploration",
+		Rule:        "the C03 value list (types, values, passing modes) is encoded with encoder.Encode under a random one of the 2^9 option sets (SortMapKeys forced when the type holds a map or interface, since unsorted order is undefined) in a JIT process and in a SONIC_ENCODER_USE_VM=1 process; digests (error-or-not + output bytes) are compared. distinct = hash(type, passing mode, option set, value dump)",
+		Assumptions: []string{"both back ends are run on identical inputs in separate processes; equality of digests (FNV-1a 64 of the output bytes) is taken as byte equality", "only executions actually produced are decided"},
+		MinEvals:    20000, MinEvalsThorough: 1000000,
+		Runs: func(string) []*Run {
+			nb := n(8, 32)
+			return []*Run{
+				{Name: "jit", Flavor: "plain", NBatch: nb, TimeoutS: n(900, 3000)},
+				{Name: "vm", Flavor: "plain", NBatch: nb, Env: []string{"SONIC_ENCODER_USE_VM=1"}, TimeoutS: n(900, 3000)},
+			}
+		},
+		Post: crossDiff("jit", "vm"),
+	}
+	plans["C13"] = &Plan{
+		Level:       "exploration",
+		Rule:        "inputs = block sweeps (6 document shapes and plain strings x length 0..L x position x 14 special byte groups, L=70 quick/160 thorough) + seeded random/mutated documents, raw byte strings, escape bodies, number literals and float/int values; each input is run through every public API backed by a native routine (Valid, Unmarshal into interface{}/struct/RawMessage under 2 configs, Skip, Get with 7 paths, NewRaw+LoadAll+MarshalJSON, Preorder event stream, Quote, unquote, HTMLEscape, utf8 validate/correct, string Marshal/Unmarshal, number parse and format) and the transcript digest is compared between an AVX2 process and a SONIC_MODE=noavx2 process. The bridge reports the installed native table",
+		Assumptions: []string{"both instruction-set variants are run on identical inputs in separate processes; transcript digest equality is taken as result equality (error positions included)", "only executions actually produced are decided"},
+		MinEvals:    50000, MinEvalsThorough: 1000000,
+		Runs: func(string) []*Run {
+			nb := n(8, 32)
+			return []*Run{
+				{Name: "avx2", Flavor: "plain", NBatch: nb, TimeoutS: n(900, 3000)},
+				{Name: "sse", Flavor: "plain", NBatch: nb, Env: []string{"SONIC_MODE=noavx2"}, TimeoutS: n(900, 3000)},
+			}
+		},
+		Post: crossDiff("avx2", "sse"),
 	}
 	plans["C19"] = &Plan{
 		Level: "exploration",
